@@ -916,9 +916,18 @@ impl Engine for C15 {
         // verifications find most of it cached
         let mut prefix = prefix;
         if rng.chance(1, 50) {
-            let n = rng.range(33, 70) as usize;
-            let pairs = gen_pairs(rng, NKEYS, n, false);
-            let mut signed = pairs.clone();
+            // mostly 33-70 pairs; one in six of these runs crosses 256 / 512 pairs
+            let n = if rng.chance(1, 6) { *rng.pick(&[257usize, 258, 300, 513]) } else { rng.range(33, 70) as usize };
+            let mut pairs = gen_pairs(rng, NKEYS, n, false);
+            // half of them carry one or two invalid keys (infinity, outside the subgroup) anywhere
+            // in the list; the holder of a shifted key signs, nobody signs for infinity
+            if rng.chance(1, 2) {
+                for _ in 0..rng.range(1, 2) {
+                    let pos = rng.usize_below(n);
+                    pairs[pos].0 = if rng.chance(1, 2) { INF } else { INF + 1 + rng.below(4) as u8 };
+                }
+            }
+            let mut signed: Vec<Pair> = pairs.iter().copied().filter(|p| p.0 != INF).collect();
             match rng.below(4) {
                 0 => {
                     let i = rng.usize_below(signed.len());
